@@ -517,6 +517,10 @@ class SVGPath(SVGShape, SVGCommandSeq):
         def subpaths_callback(subpath_start, curr_pos, cmd, args, *_unused):
             if cmd.upper() == "M":
                 subpaths.append(SVGPath())
+            elif not subpaths[-1].d and len(subpaths) > 1:
+                # drawing resumes after a closepath without a moveto: the new
+                # subpath starts where the closepath left the current point
+                subpaths[-1]._add_cmd("M", *subpath_start)
             subpaths[-1]._add_cmd(cmd, *args)
             if cmd.upper() == "Z":
                 subpaths.append(SVGPath())
